@@ -35,6 +35,26 @@ Supported subset (anything else fails)
                (float.__new__), constructor calls `SI(..)`, `Dimensionless(..)`, `type(self)(..)`,
                `<class taken from _mul/_div>(..)`, `<quantity argument>(..)`;
                `"...".format(a, b)` and f-strings only as exception messages
+Rewrites that do not change the meaning are brought to one form before anything is emitted
+  * a call of a PRIVATE HELPER -- a method of Quantity / SI that is not in METHODS, or a module-level function -- is
+    translated at the call site: the arguments are evaluated first, in order, and bound to fresh names, the
+    parameters are bound to them, `return` inside the helper is the value of the call, falling off its end is
+    None; a closed lambda may be passed on and is applied / handed to map where the parameter is used.  Refused
+    (file:line): a recursive helper, *args / **kwargs / keyword-only parameters, decorators other than
+    staticmethod, a lambda that mentions names of its surroundings, yield / try / with / global / nested defs;
+  * guard clause + early return and nested if / elif / else give the same nest of conditionals (the statements
+    after an `if` continue each branch that falls through; branches that only assign are joined);
+    `x if c else y`; `not`, `!=`, De Morgan forms are kept as written (the agreement proofs decide the atomic
+    tests, not the spelling); `isinstance(x, (A, B))` is the disjunction;
+  * `type(x) == float or type(x) == int`, `type(x) != float and type(x) != int`, `type(x) [not] in (float, int)`
+    are one test; `len(s) > 0`, `len(s) != 0`, `len(s) >= 1`, `s != ''` and a str used as a test are
+    `negb (s =? "")`, `len(s) == 0`, `s == ''`, `not s` are `s =? ""`; `s[:1] == 'c'` is `s.startswith('c')`;
+  * `while i < b: body; i += 1` (body without continue / break, not assigning i or the bound) is
+    `for i in range(i, b)` followed by i = max(i, b);
+  * the state handed through a loop or joined after an `if` is the tuple of the assigned variables in
+    ALPHABETICAL order; a local bound to an expression is let-bound (bind, if it may raise) at that point, so
+    the order of evaluation of everything that may raise is the order of the source;
+  * `"..." % (a, b)` with %s / %r fields is accepted as an exception message besides f-strings and str.format.
 Meaning given to them (the trusted part; the fixed PRELUDE spells it out in Gallina)
   * every method yields `result T` (`Val x | Raise kind`): exceptions are data;
   * Python objects range over `gval`: an instance of the c-th quantity class (float value, `_unit`), an SI
